@@ -116,10 +116,21 @@ def req_problems(e, g):
     return bad, ubad
 
 
+CUT = [False]       # a batch was cut short: the driver's watchdog killed 8 calls of it (each one reported); vacuity of the rest is not judged
+def batch(exe, lines, timeout):
+    """common.batch_run; after 8 calls that did not return (driver watchdog: 2 s of CPU time / 20 s of wall clock for a call that
+    takes microseconds) the rest of the batch is not run: the check ends with its verdict in bounded time"""
+    res = common.batch_run(exe, lines, timeout=timeout, max_hangs=8)
+    if any(not_run(a) for a in res): CUT[0] = True
+    return res
+def not_run(a):
+    return isinstance(a, dict) and bool(a.get("skipped"))
+
 def start_lines(ctx, exe, cases, fails, seen):
     lines = ["%s %s" % (c["kind"], hexs(text_bytes(c["text"]))) for c in cases]
-    res = common.batch_run(exe, lines, timeout=600)
+    res = batch(exe, lines, 600)
     for c, ln, a in zip(cases, lines, res):
+        if not_run(a): continue
         fn = "http_parse_req_line" if c["kind"] == "req" else "http_parse_resp_line"
         shape = c["shape"]; e = c["expect"]; n = len(c["text"])
         ctx.add(evaluations=1); seen.add(hash(ln))
@@ -163,8 +174,9 @@ def sequences(ctx, exe, cases, fails, seen, stats):
     fn = "http_parse_req_line"
     lines = ["seq " + " ".join(hexs(text_bytes(it["text"])) for it in c["items"]) for c in cases if len(c["items"]) >= 2]
     multi = [c for c in cases if len(c["items"]) >= 2]
-    res = common.batch_run(exe, lines, timeout=600)
+    res = batch(exe, lines, 600)
     for c, ln, a in zip(multi, lines, res):
+        if not_run(a): continue
         ctx.add(evaluations=1); seen.add(hash(ln))
         items = c["items"]
         rp = {"driver_line": ln, "texts": [it["text"] for it in items], "expect": [it["expect"] for it in items]}
@@ -194,8 +206,9 @@ def queries(ctx, exe, cases, fails, seen, stats):
     for c in cases:
         for name, exp in sorted(c["look"].items()):
             lines.append("qry %s %s" % (hexs(text_bytes(c["text"])), name)); meta.append((c, name, exp))
-    res = common.batch_run(exe, lines, timeout=600)
+    res = batch(exe, lines, 600)
     for ln, (c, name, exp), a in zip(lines, meta, res):
+        if not_run(a): continue
         ctx.add(evaluations=1); seen.add(hash(ln))
         rp = {"driver_line": ln, "query": c["text"], "name": name, "expect": exp}
         if isinstance(a, dict):
@@ -246,8 +259,9 @@ def header_blocks(ctx, exe, cases, fails, seen, stats, base=0):
             lines.append("hdr %s %s" % (hexs(render(c, False, tail)), qs)); meta.append((c, False, tail))
         tail = tails[(i + ctx.seed) % len(tails)]   # the other method: verdict only
         lines.append("hdr %s" % hexs(render(c, True, tail))); meta.append((c, True, tail))
-    res = common.batch_run(exe, lines, timeout=1200)
+    res = batch(exe, lines, 1200)
     for ln, (c, alt, tail), a in zip(lines, meta, res):
+        if not_run(a): continue
         ctx.add(evaluations=1); seen.add(hash(ln))
         method = c["alt"] if alt else "GET"
         rej = c["rejPut"] if alt else c["rejGet"]
@@ -376,10 +390,10 @@ def run(ctx):
     # ---- the same result structure used for request after request; query access
     sequences(ctx, exe, seq_cases, fails, seen, stats)
     want = {(a, b) for a in ("absolute", "absolute+query", "authority") for b in ("origin", "origin+query", "asterisk")}
-    if not want <= stats["seq_transitions"]:
+    if not want <= stats["seq_transitions"] and not CUT[0]:
         raise common.Infra("vacuous corpus: request sequences lack the transitions %s" % sorted(want - stats["seq_transitions"]))
     queries(ctx, exe, qry_cases, fails, seen, stats)
-    if not stats["query_lookups_hit"] or stats["query_lookups_hit"] == stats["query_lookups"]:
+    if (not stats["query_lookups_hit"] or stats["query_lookups_hit"] == stats["query_lookups"]) and not CUT[0]:
         raise common.Infra("vacuous corpus: query lookups %s" % stats)
     ctx.log("request sequences compared: %d (%d parses into a used structure), query lookups: %d"
             % (len(seq_cases), stats["seq_parses"], stats["query_lookups"]))
@@ -400,7 +414,7 @@ def run(ctx):
         raise common.Infra("vacuous corpus: edit kinds=%s" % eds)
     ctx.log("header blocks compared: %d cases" % nhdr)
     missing = [p for p in PATTERNS if not stats.get(p)]
-    if missing or not stats["acc"] or not stats["rej"] or not stats["lookups_hit"]:
+    if (missing or not stats["acc"] or not stats["rej"] or not stats["lookups_hit"]) and not CUT[0]:
         raise common.Infra("vacuous corpus: patterns never generated %s, stats %s" % (missing, stats))
     fails.flush(ctx)
 
